@@ -61,6 +61,10 @@ def run(ctx):
             # is not expressible through the PrefixFS view (judged under C05/C14), use the bare layering
             cfg = cfgs[0]
         ops = [("realpath", p) for p in paths]
+        # relative spellings (resolved against the working directory, the root of the tree):
+        # the first component may itself be a symlink
+        rel = [p[1:] for p in paths if p.count(b"/") <= 2]
+        ops += [("realpath", p) for p in (rel if tier != "quick" else rnd.sample(rel, 25))]
         # graphs produced by earlier operations of the same transaction
         if gi % 3 == 0:
             tl1 = rnd.choice([t for t in TARGETS if not (t2.view_prefix(cfg) and t.startswith(b".."))])
